@@ -147,9 +147,12 @@ def fault_programs(rng, n):
         fault, phase = FAULTS[kind]
         mode = "plain"
         head = ""
-        if rng.random() < 0.3:
+        r = rng.random()
+        if r < 0.3:
             mode = "template"
             head = rng.choice(["<?php" + eol, "<html>" + eol + "<?php" + eol, "<?php "])
+        elif r < 0.4:
+            head = "#!/usr/bin/env zy\n" + rng.choice(["<?php" + eol, "<?php "])      # plain mode with a #! line
         after = "" if kind.endswith("-eof") else eol + eol.join("$w%d = %d;" % (k, k) for k in range(rng.randrange(0, 4)))
         src = head + before + fault + after
         line = (head + before).count("\n") + 1
@@ -198,6 +201,9 @@ def main(ck):
             if rng.random() < 0.3:
                 m = "template"
                 s = rng.choice([b"<?php ", b"<html>\n<?php ", b"<?php\n"]) + s + rng.choice([b"", b" ?>", b"?>\n<p>x</p>", b"?><?php $z"])
+            elif rng.random() < 0.08:
+                # a #! line: the rest is lexed in template mode, offsets and lines relative to the whole source
+                s = rng.choice([b"#!/usr/bin/env zy\n", b"#!x\n", b"#!\n", b"#! no newline"]) + rng.choice([b"<?php ", b"<p>\n<?php\n", b""]) + s
             cases.append({"hex": s.hex(), "mode": m, "origin": "gen"})
         # corpus files, their prefixes and mutants
         files = corpus_files()
